@@ -10,6 +10,7 @@ use vsched::{ExecCfg, Outcome, PointKind};
 use crate::common::*;
 
 struct Dummy;
+#[cfg_attr(feature = "alt", ractor::async_trait)]
 impl Actor for Dummy {
     type Msg = u32;
     type State = ();
